@@ -630,7 +630,8 @@ class Tail:
                 return
         if k == 'IfStmt':
             ks = kids(s)
-            gk = guard_kind(self.f, ks[0]) if len(ks) == 2 else None
+            gk = guard_kind(self.f, ks[0]) if len(ks) == 2 and not any(
+                m.get('kind') in ('BreakStmt', 'ContinueStmt', 'ReturnStmt') for m in walk(ks[1])) else None
             if gk is not None:
                 lits, other = gk
                 if other:
@@ -662,7 +663,8 @@ def exec_paths(state, stmts):
                 nxt += l2
                 exits += e2
                 continue
-            if k == 'IfStmt' and not (len(kids(s)) == 2 and guard_kind(st.f, kids(s)[0]) is not None):
+            if k == 'IfStmt' and not (len(kids(s)) == 2 and guard_kind(st.f, kids(s)[0]) is not None and
+                                      not any(m.get('kind') in ('BreakStmt', 'ContinueStmt', 'ReturnStmt') for m in walk(kids(s)[1]))):
                 ks = kids(s)
                 ctext = st.f.unit.text(ks[0]).replace(' ', '')
                 a = st.clone()
